@@ -63,6 +63,7 @@ type Data struct {
 	DCMIPage    int               // record IDs per response (default 8)
 	DCMIReqs    []DCMISensorReq
 	PrivLevel   byte
+	PrivLimit   byte // if non-zero, requests for a higher level are refused with 0x81
 	CipherReqs  int
 }
 
@@ -90,6 +91,9 @@ func installDefaults(b *BMC) {
 			return 0xD4, nil
 		}
 		l := byte(rx.Req.Fields["level"])
+		if b.Data.PrivLimit != 0 && l > b.Data.PrivLimit {
+			return 0x81, nil // requested level exceeds the user's limit
+		}
 		if l != 0 {
 			b.Data.PrivLevel = l
 		}
